@@ -14,7 +14,7 @@ OnLock == /\ Line.ev = "lock"
           /\ LET r == Act(s, Line.a, Line.h, Line.p) IN
              /\ Report(UNION {
                    FailT(Line.res = r.res, "C11:result-" \o Line.res \o "-expected-" \o r.res),
-                   IF Line.a \in {"open", "openstats", "openasync", "openbad"} /\ Line.res # "ok"
+                   IF Line.a \in {"open", "openstats", "openasync", "openbad", "openalias"} /\ Line.res # "ok"
                    THEN UNION { FailT(Line.muts = 0, "C11:losing-open-made-mutating-calls"),
                                 FailT(Line.same, "C11:losing-open-changed-directory") } ELSE {},
                    FailT(OneOwner(r.s) /\ HolderConsistent(r.s), "C11:two-owners") })
